@@ -655,6 +655,20 @@ def simple_contagion_rule(repo, rep):
                     want_it = "spontaneous_transition_graph.edges(status[%s])" % _key(K)
                     okd = _key(K) == node
                 okit = bool(tl) and _key(tl[-1].iter) == want_it
+                # enrolled under no other condition than "the spec graph has this status (pair)": a guard clause or an outer test
+                # about anything else (e.g. the OTHER spec graph) silently drops enabled candidates
+                base = {(_key(fx), pol) for fx, pol in ctxs[fill[0]].facts} if fill[0] in ctxs else set()
+                inner = {(_key(fx), pol) for fx, pol in c.facts} - base
+                if isinstance(K, ast.Tuple):
+                    allowed = {("nbr_induced_transition_graph.has_node((status[%s],status[%s]))" % (a, b), True)}
+                else:
+                    allowed = {("spontaneous_transition_graph.has_node(status[%s])" % _key(K), True)}
+                extra = inner - allowed
+                rep.ob("R11s", not extra, "simple contagion: initial enrolment of %s depends on nothing but its own spec graph having that status" % (
+                    "an ordered pair" if isinstance(K, ast.Tuple) else "a node"), func=f, node=st,
+                    construct="initial update %s under %s" % (_key(K), sorted(x for x, _ in inner)),
+                    detail="" if not extra else "the enrolment is additionally conditional on %s: enabled candidates are skipped whenever that fails" % sorted(
+                        ("" if pol else "not ") + x for x, pol in extra))
                 rep.ob("R11s", okw and okit and okd, "simple contagion: initial candidates are exactly the enabled (node | ordered pair) per spec edge",
                        func=f, node=st, construct="initial update %s over %s" % (_key(K), _key(tl[-1].iter) if tl else None),
                        detail="" if (okw and okit and okd) else "initial fill key/status/weight disagree (weight ok=%s, spec edges ok=%s, domain ok=%s)" % (okw, okit, okd))
